@@ -408,6 +408,12 @@ func infeasibleEdges(fn *ssa.Function) map[edgeKey]bool {
 		if i := staticNilBranch(b); i >= 0 {
 			m[edgeKey{b, i, nil}] = true
 		}
+		// … and so is a branch whose other outcome is established by a dominating branch on the same (stable) values
+		if p := progOf[fn.Prog]; p != nil {
+			if i := p.R(fn).contradictedEdge(b); i >= 0 {
+				m[edgeKey{b, i, nil}] = true
+			}
+		}
 		ph := boolPhiCond(b)
 		if ph == nil {
 			continue
